@@ -2,6 +2,7 @@
 from __future__ import annotations
 
 import copy
+import json
 
 from .. import core
 from .. import gen as G
@@ -98,6 +99,24 @@ def gen(ctx):
             if attempt == 11 or ctx.rng.random() < 0.1 or selects_something(doc, mq, sel):
                 break
         cases.append({"doc": doc, "match": mq, "sel": sel, "style": ctx.rng.choice(["RELATIVE", "FLAT", "ROOT"])})
+    # overlapping selections (a container, then something strictly below it, at every depth): the theorems exclude
+    # them, but the document must still not be modified
+    deep = [{"a": {"b": [0, {"x": 2, "y": 3}]}, "c": 1}, {"a": [[1, {"k": [1, 2]}], {"b": {"c": [{"d": 1}]}}]}, [[{"a": [{"b": 1}]}], {"z": [[{"y": 2}]]}]]
+    for doc in deep + docs[:6]:
+        locs = [(t, v) for t, v in G.locations(doc) if t]
+        conts = [(t, v) for t, v in locs if isinstance(v, (dict, list))]
+        for _ in range(25 if ctx.tier == "quick" else 200):
+            if not conts:
+                break
+            t1, v1 = ctx.rng.choice(conts)
+            below = [t for t, _ in locs if len(t) > len(t1) and t[:len(t1)] == t1]
+            if not below:
+                continue
+            t2 = ctx.rng.choice(below)
+            def spell(t):
+                return "$" + "".join(f"[{json.dumps(x)}]" if isinstance(x, str) else f"[{x}]" for x in t)
+            order = [spell(t1), spell(t2)] if ctx.rng.random() < 0.7 else [spell(t2), spell(t1)]
+            cases.append({"doc": doc, "match": "$", "sel": order, "style": ctx.rng.choice(["RELATIVE", "ROOT"])})
     return cases
 
 
